@@ -20,7 +20,7 @@ func init() {
 			"(map-order) results built while ranging over a map are made order-independent: tool-call groups are enumerated by ranging over the group map and the merged list is sorted with a STABLE sort before it is returned; map merges write by key; " +
 			"(inputs-immutable) ConcatMessages / concatToolCalls / concatMessageArray never write through their inputs and never install an input's pointer as a result accumulator; " +
 			"(nil-chunk) a nil message chunk is rejected before any field access.",
-		decided:    []string{"reflect-zero (receiver and argument sinks)", "bounded-index", "unchecked-assert", "map-order", "inputs-immutable", "nil-chunk"},
+		decided:    []string{"reflect-zero (receiver and argument sinks)", "bounded-index", "unchecked-assert", "map-order", "inputs-immutable", "nil-chunk", "visits-all", "group-key-local"},
 		notDecided: []string{"the algebraic re-chunking law (concat(prefix)+rest == concat(all))", "user-registered concat functions", "content of the concatenated values"},
 		run:        runC14,
 	})
